@@ -110,6 +110,15 @@ func init() {
 			{Name: "CIDR helper allows when the list is empty", ExpectRule: "C19.R2", ExpectKey: "deny-by-default", Edits: []Edit{
 				{File: exh, Old: "\tif len(h.cfg.AllowedRoutes) == 0 {\n\t\treturn false // Deny by default when no routes configured\n\t}\n\n\tfor _, route := range h.cfg.AllowedRoutes {\n\t\tif route.Contains(ip) {\n\t\t\treturn true\n\t\t}\n\t}\n\n\treturn false\n}", New: "\treturn anyRouteContains(h.cfg.AllowedRoutes, ip)\n}\n\nfunc anyRouteContains(routes []*net.IPNet, ip net.IP) bool {\n\tif len(routes) == 0 {\n\t\treturn true\n\t}\n\tfor i := 0; i < len(routes); i++ {\n\t\tif routes[i].Contains(ip) {\n\t\t\treturn true\n\t\t}\n\t}\n\treturn false\n}"},
 			}},
+			{Name: "wildcard makes the dot in front of the base optional", ExpectRule: "C19.R2", ExpectKey: "label-anchored", Edits: []Edit{
+				{File: exh, Old: "\t\t\tsuffix := \".\" + strings.ToLower(dp.BaseDomain)\n\t\t\tif strings.HasSuffix(domain, suffix) {\n\t\t\t\t// Count dots before the suffix - should be zero for single-level wildcard\n\t\t\t\tprefix := domain[:len(domain)-len(suffix)]\n\t\t\t\tif !strings.Contains(prefix, \".\") && len(prefix) > 0 {\n\t\t\t\t\treturn true\n\t\t\t\t}\n\t\t\t}\n", New: "\t\t\tbase := strings.ToLower(dp.BaseDomain)\n\t\t\tif strings.HasSuffix(domain, base) {\n\t\t\t\tlabel := strings.TrimSuffix(domain[:len(domain)-len(base)], \".\")\n\t\t\t\tif label != \"\" && !strings.Contains(label, \".\") {\n\t\t\t\t\treturn true\n\t\t\t\t}\n\t\t\t}\n"},
+			}},
+			{Name: "wildcard cuts the bare base off the name", ExpectRule: "C19.R2", ExpectKey: "label-anchored", Edits: []Edit{
+				{File: exh, Old: "\t\t\tsuffix := \".\" + strings.ToLower(dp.BaseDomain)\n\t\t\tif strings.HasSuffix(domain, suffix) {\n\t\t\t\t// Count dots before the suffix - should be zero for single-level wildcard\n\t\t\t\tprefix := domain[:len(domain)-len(suffix)]\n\t\t\t\tif !strings.Contains(prefix, \".\") && len(prefix) > 0 {\n\t\t\t\t\treturn true\n\t\t\t\t}\n\t\t\t}\n", New: "\t\t\tif prefix, ok := strings.CutSuffix(domain, strings.ToLower(dp.BaseDomain)); ok {\n\t\t\t\tif !strings.Contains(prefix, \".\") && len(prefix) > 0 {\n\t\t\t\t\treturn true\n\t\t\t\t}\n\t\t\t}\n"},
+			}},
+			{Name: "wildcard accepts the separator or nothing in front of the base", ExpectRule: "C19.R2", ExpectKey: "label-anchored", Edits: []Edit{
+				{File: exh, Old: "\t\t\tsuffix := \".\" + strings.ToLower(dp.BaseDomain)\n\t\t\tif strings.HasSuffix(domain, suffix) {\n\t\t\t\t// Count dots before the suffix - should be zero for single-level wildcard\n\t\t\t\tprefix := domain[:len(domain)-len(suffix)]\n\t\t\t\tif !strings.Contains(prefix, \".\") && len(prefix) > 0 {\n\t\t\t\t\treturn true\n\t\t\t\t}\n\t\t\t}\n", New: "\t\t\tbase := strings.ToLower(dp.BaseDomain)\n\t\t\tif strings.HasSuffix(domain, base) {\n\t\t\t\tprefix := domain[:len(domain)-len(base)]\n\t\t\t\tif strings.Count(prefix, \".\") <= 1 && len(prefix) > 0 {\n\t\t\t\t\treturn true\n\t\t\t\t}\n\t\t\t}\n"},
+			}},
 			// rewrites
 			{Name: "rewrite: allow decision as a named boolean", Edits: []Edit{
 				{File: exh, Old: "\tif !domainAllowed && !h.isAllowed(ip) {", New: "\tallowed := domainAllowed || h.isAllowed(ip)\n\tif !allowed {"},
@@ -154,6 +163,9 @@ func init() {
 			{Name: "rewrite: network identity through a String()-based helper", Edits: []Edit{
 				{File: exh, Old: "\ttarget := network.String()\n\tfor _, route := range h.cfg.AllowedRoutes {\n\t\tif route.String() == target {\n\t\t\treturn\n\t\t}\n\t}\n", New: "\tfor _, route := range h.cfg.AllowedRoutes {\n\t\tif sameRoute(route, network) {\n\t\t\treturn\n\t\t}\n\t}\n"},
 				{File: exh, Old: "// AllowedRouteCount returns the number of allowed routes.", New: "func sameRoute(a, b *net.IPNet) bool { return a.String() == b.String() }\n\n// AllowedRouteCount returns the number of allowed routes."},
+			}},
+			{Name: "rewrite: bare-base suffix test plus an explicit separator check", Edits: []Edit{
+				{File: exh, Old: "\t\t\tsuffix := \".\" + strings.ToLower(dp.BaseDomain)\n\t\t\tif strings.HasSuffix(domain, suffix) {\n\t\t\t\t// Count dots before the suffix - should be zero for single-level wildcard\n\t\t\t\tprefix := domain[:len(domain)-len(suffix)]\n\t\t\t\tif !strings.Contains(prefix, \".\") && len(prefix) > 0 {\n\t\t\t\t\treturn true\n\t\t\t\t}\n\t\t\t}\n", New: "\t\t\tbase := strings.ToLower(dp.BaseDomain)\n\t\t\tif strings.HasSuffix(domain, base) && len(domain) > len(base) && domain[len(domain)-len(base)-1] == '.' {\n\t\t\t\tprefix := domain[:len(domain)-len(base)-1]\n\t\t\t\tif !strings.Contains(prefix, \".\") && len(prefix) > 0 {\n\t\t\t\t\treturn true\n\t\t\t\t}\n\t\t\t}\n"},
 			}},
 			{Name: "rewrite: allow decision in an admission helper returning (ip, rejection)", Edits: []Edit{
 				{File: exh, Old: "\t// Resolve address\n\tip, err := h.resolver.Resolve(ctx, destAddr)\n\tif err != nil {\n\t\th.sendOpenErr(remoteID, streamID, requestID, protocol.ErrHostUnreachable, err.Error())\n\t\treturn\n\t}\n\n\t// Check if destination is allowed (domain patterns OR CIDR routes)\n\tif !domainAllowed && !h.isAllowed(ip) {\n\t\th.sendOpenErr(remoteID, streamID, requestID, protocol.ErrNotAllowed, \"destination not allowed\")\n\t\treturn\n\t}\n", New: "\tip, rejection := h.admitDestination(ctx, destAddr, domainAllowed)\n\tif rejection != nil {\n\t\th.sendOpenErr(remoteID, streamID, requestID, rejection.code, rejection.message)\n\t\treturn\n\t}\n"},
@@ -966,6 +978,10 @@ func (cx *c19Ctx) ruleR2() {
 		r.Decide(bad == "", "C19.R2", fname+" end-anchored match", p.Pos(m.Pos()),
 			"an occurrence of the pattern inside the name, with no relation anchored at the end of the name, is not accepted",
 			"the return at "+bad+" can yield true when the pattern's base merely occurs somewhere in the name (substring / first-occurrence search) and nothing ties it to the end of the name: db.corp.example.attacker.test matches *.corp.example and the exit dials whatever that foreign name resolves to")
+		bad = trueReturn(kit.LiveUnder(m, cx.roleAtom("label", m, nil, 0, map[*ssa.Function]bool{m: true})))
+		r.Decide(bad == "", "C19.R2", fname+" label-anchored match", p.Pos(m.Pos()),
+			"a name that merely ends with the pattern's base, without a dot in front of it, is not accepted",
+			"the return at "+bad+" can yield true for a name that ends with the pattern's base but has no dot in front of it: evilcorp.example matches *.corp.example, a different registrable domain, and the exit dials whatever it resolves to")
 	}
 }
 
